@@ -215,6 +215,7 @@ ROUND6 = {
     "C03": "actions registered as configured instances that fail once and are needed again in a later turn.",
     "C04": "start arguments of actions held in flow variables (found and fixed C04-F39).",
     "C05": "structured parameters (dict / list / set / action start arguments) mentioned with a different number of members, with a nested score model.",
+    "C06": "one flow holding an action through two of its own heads (twin heads) and ended from outside.",
     "C07": "member flows that finish on the same event under every tie-break outcome, a group statement directly followed by a second one that re-awaits the loser.",
     "C08": "wide signatures (up to 14 parameters, more than ten positional arguments), named arguments written before positional ones in bracket-less calls.",
     "C09": "main flows that end (and are re-armed) or carry the faulty action themselves; the thorough tier found and fixed C09-F40.",
